@@ -51,7 +51,22 @@ Definition target_addr (akind port : N) : option saddr :=
 Definition addr_bytes (akind port : N) : bytes :=
   match target_addr akind port with
   | Some a => encode_addr a
-  | None => [9; 1; 2; 3; 4; 5; 6]        (* unsupported address type *)
+  | None =>
+      match akind with
+      | 20 => [0; 1; 2; 3; 4; 5; 6]                                   (* type 0 *)
+      | 21 => [3; 0] ++ [port / 256; port mod 256]                    (* zero-length domain *)
+      | 22 => [3; 255] ++ map (fun i => 97 + N.of_nat i mod 26) (seq 0 255) ++ [port / 256; port mod 256]
+      | 23 => [1; 127; 0]                                             (* truncated IPv4 *)
+      | 24 => [3; 200; 97; 98]                                        (* truncated domain *)
+      | 25 => [4; 0; 1]                                               (* truncated IPv6 *)
+      | _ => [9; 1; 2; 3; 4; 5; 6]                                    (* unsupported address type *)
+      end
+  end.
+(* resolver oracle: the 255-byte name does not resolve; the empty name is the local host *)
+Definition resolved_of (k : ckind) : list ip :=
+  match k with
+  | CHonest _ _ _ 22 _ _ _ _ => []
+  | _ => [V4 (127 * 2^24 + 1)]
   end.
 
 (* the SDK Writer turns one Write into chunks of at most payloadSizeMask bytes *)
@@ -118,7 +133,7 @@ Fixpoint run_conns (e : env) (st : astate) (i : N) (cs : list conn) : list cobs 
   | c :: r =>
       let '(e', w) := wire_of e i (k_kind c) in
       let ci := {| ci_ip := 1; ci_bytes := w; ci_fin := k_fin c; ci_validate := k_validate c;
-                   ci_connect_ok := k_connect_ok c; ci_resolved := [V4 (127 * 2^24 + 1)]; ci_target_out := gb (fst (k_tout c)) (snd (k_tout c)) |} in
+                   ci_connect_ok := k_connect_ok c; ci_resolved := resolved_of (k_kind c); ci_target_out := gb (fst (k_tout c)) (snd (k_tout c)) |} in
       let '(st', res) := handle e' st ci in
       match res with
       | Ok evs => obs_of (k_fin c) evs :: run_conns e' st' (i + 1) r
